@@ -216,9 +216,14 @@ def monitor_e2e(ctx: Ctx, case: dict, worker: str, res: dict) -> Optional[dict]:
                       {**sig, "error": err_sig(res), "trigger": trigger})
         ctx.count("error_kind", err_sig(res))
         return None
-    # the handler ended, or is still serving an open connection
-    if not res["handler_done"] and res["closed_at"] is not None and not res.get("live_tasks"):
-        pass
+    # the handler terminates or keeps serving: once the client has half-closed, within bounded virtual time (the run lasts
+    # well beyond keep_alive_timeout) the transport is closed and the handler has finished
+    released = res["closed_at"] is not None and bool(res["handler_done"])
+    if case.get("eof", True):
+        ctx.count("e2e.released_after_eof", f"{fam}:{released}")
+        if case.get("bounded") and not released:
+            ctx.violation("connection_stuck", rcase, {"closed_at": res["closed_at"], "handler_done": res["handler_done"], "out": b2s(res["out"][:200]),
+                                                       "labels": res["labels"][-8:]}, {**sig, "kind": case.get("kind") or case.get("name")})
     tapinfo = res.get("client_result") or {"kinds": [], "raised": []}
     data = b"".join(s2b(x) for x in case["reads"])
     if case["proto"] == "h1":
@@ -479,6 +484,38 @@ def valid_sessions(rng) -> Dict[str, Tuple[str, bytes, List[str]]]:
             "h1_h2c": ("h1", h2c, ["ok"]), "h1_prior_knowledge": ("h1", prior, ["ok"])}
 
 
+H2C_KINDS = ["plain", "unknown_server_name", "invalid_ws_handshake", "invalid_ws_handshake_lower", "nonascii_path", "head", "unknown_name_ws"]
+
+
+def h2c_opening(rng, kind: str, settings: str, follow: str) -> dict:
+    """an HTTP/1 `Upgrade: h2c` request whose (synthetic) HTTP/2 stream 1 is answered by the stream itself — unknown
+    server name (404), invalid websocket handshake (400) — or refused by h11 (non-ASCII target), optionally followed by the
+    client's HTTP/2 preface and an ordinary request on stream 3"""
+    method, target, host, cfg = "GET", b"/", b"x", {}
+    if kind in ("unknown_server_name", "unknown_name_ws"):
+        host, cfg = b"other", {"server_names": ["x"]}
+    if kind in ("invalid_ws_handshake", "unknown_name_ws"):
+        method = "CONNECT"
+    if kind == "invalid_ws_handshake_lower":
+        method = "connect"
+    if kind == "nonascii_path":
+        target = b"/caf\xc3\xa9"
+    if kind == "head":
+        method = "HEAD"
+    req = (method.encode() + b" " + target + b" HTTP/1.1\r\nHost: " + host + b"\r\nUpgrade: h2c\r\nConnection: Upgrade, HTTP2-Settings\r\nHTTP2-Settings: " +
+           settings.encode() + b"\r\n\r\n")
+    reads = [req]
+    if follow != "none":
+        F = H.Frames()
+        tail = F.preface() + F.headers(3, H.req_headers("get"))
+        if follow == "same_read":
+            reads = [req + tail]
+        else:
+            reads = [req, tail]
+    return {"family": "h2c_opening", "proto": "h1", "kind": kind, "settings": settings, "follow": follow, "reads": [b2s(x) for x in reads],
+            "cfg": cfg, "scripts": ["ok"], "eof": True, "waits": {"1": 0.3} if len(reads) > 1 else {}}
+
+
 def corpus() -> List[dict]:
     """minimised past failures (each was an unhandled exception in the connection handler before its fix) and the probes of
     DESIGN.md section 5"""
@@ -521,6 +558,8 @@ def corpus() -> List[dict]:
     h1case("F41_host_not_utf8_server_names", [b"GET / HTTP/1.1\r\nhost: \xff\r\n\r\n"], cfg={"server_names": ["x"]})
     h1case("F43_h2c_settings_not_utf8", [b"GET / HTTP/1.1\r\nhost: x\r\nupgrade: h2c\r\nhttp2-settings: \xff\xfe\r\n\r\n"])
     h1case("F43_h2c_settings_short", [b"GET / HTTP/1.1\r\nhost: x\r\nupgrade: h2c\r\nhttp2-settings: AAAA\r\n\r\n"])
+    out.append({**h2c_opening(None, "unknown_server_name", "", "none"), "family": "corpus", "name": "F82_h2c_unknown_server_name_deadlock", "bounded": True})
+    out.append({**h2c_opening(None, "invalid_ws_handshake", "", "later_read"), "family": "corpus", "name": "F82_h2c_invalid_ws_handshake_deadlock", "bounded": True})
     h1case("h1_malformed_request_line", [b"GET\r\n\r\n"])
     h1case("h1_bad_header", [b"GET / HTTP/1.1\r\nhost x\r\n\r\n"])
     h1case("h1_oversized_head", [b"GET / HTTP/1.1\r\nhost: x\r\nx: " + b"a" * 20000 + b"\r\n\r\n"])
@@ -558,6 +597,19 @@ def gen_e2e(ctx: Ctx) -> List[dict]:
         mutated = data[:keep] + mutate(rng, data[keep:], how, other)
         cases.append({"family": "mutation", "proto": proto, "name": name, "how": how, "reads": [b2s(x) for x in cut(rng, mutated, rng.choice(["one", "random", "random", "bytewise"]))],
                       "scripts": scripts, "eof": rng.random() < 0.7})
+    # h2c openings x self-answering requests
+    k = 0
+    for kind in H2C_KINDS:
+        for settings in ("", "AAMAAABkAAQAAP__"):
+            for follow in ("none", "same_read", "later_read"):
+                k += 1
+                if ctx.thorough or k % 2 == ctx.seed % 2 or kind in ("unknown_server_name", "invalid_ws_handshake"):
+                    c = h2c_opening(rng, kind, settings, follow)
+                    if rng.random() < 0.3:
+                        c["reads"] = [b2s(x) for r in c["reads"] for x in cut(rng, s2b(r), "random")]
+                        c["waits"] = {}
+                    c["bounded"] = True
+                    cases.append(c)
     # random bytes
     for i in range(ctx.budget(24, 250)):
         n = rng.choice([1, 3, 9, 24, 60, 300, 5000, 20000])
